@@ -138,6 +138,38 @@ def run(ctx):
         ok = bool(rets) and all(N.mk_cmp("<=", ln, N.const(1)) in p.guards() or N.mk_cmp("==", ln, N.const(1)) in p.guards() for p in rets) and \
             any(p.outcome[0] == "raise" and p.outcome[1].get("cls") == "NotImplementedError" and N.mk_cmp(">", ln, N.const(1)) in p.guards() for p in paths)
         ctx.ob("C19.R2", fi, ok, "%s exports its first byte as the %s only when the %s is a single byte, and refuses longer ones" % (cls, attr, attr), key="%s single byte" % cls)
+    # every run of a schema emitter ends in an explicit return or a refusal: falling off the end hands `None` to the schema (type: null)
+    for f, fcls in funs:
+        ps = paths_of(ctx, f, fcls)
+        falls = [p for p in ps if p.outcome[0] == "fall" or (p.returns and (p.retval is None or p.retval == N.NONE))]
+        ctx.ob("C19.R2", f, not falls, "%s returns a schema fragment or refuses (NotImplementedError) on every path; %d path(s) end without a value, e.g. under %s" % (
+            f.qual, len(falls), " and ".join(N.show(c) for c in falls[0].guards()[-2:]) if falls else "-"), key="no implicit None", node=f.node)
+    # every constructor parameter that _parse consults is consulted by the class's schema emitters too (or is listed with the reason why it
+    # cannot change the layout): a flag that moves bytes between fields and that the schema ignores describes a different layout
+    LAYOUT_FROZEN = {
+        ("Array", "discard"): "changes only the returned list", ("GreedyRange", "discard"): "changes only the returned list", ("RepeatUntil", "discard"): "changes only the returned list",
+        ("FocusedSeq", "parsebuildfrom"): "selects which member's value is returned; all members are parsed and listed",
+        ("FocusedSeq", "_subcons"): "context bookkeeping", ("Struct", "_subcons"): "context bookkeeping", ("Sequence", "_subcons"): "context bookkeeping",
+        ("Pointer", "stream"): "an alternative stream is a run-time callable; the schema describes the default (same stream) case",
+    }
+    def _self_attrs(node):
+        return {n.attr for n in ast.walk(node) if isinstance(n, ast.Attribute) and isinstance(n.value, ast.Name) and n.value.id == "self"}
+    by_cls = {}
+    for f, fcls in funs:
+        if fcls and fcls != "Construct":
+            by_cls.setdefault(fcls, set()).update(_self_attrs(f.node))
+    npar = 0
+    for cname, kattrs in sorted(by_cls.items()):
+        ci = M.classes[cname]
+        if "_parse" not in ci.methods:
+            continue
+        fpi = FuncInfo(ci.methods["_parse"], ci.relpath, cls=ci, qual="%s._parse" % cname)
+        for a in sorted(_self_attrs(ci.methods["_parse"]) - kattrs):
+            npar += 1
+            fro = LAYOUT_FROZEN.get((cname, a))
+            ctx.ob("C19.R2", fpi, bool(fro), "%s._parse consults self.%s but none of the class's schema emitters does: the exported layout cannot depend on it" % (cname, a), key="layout parameter %s" % a, detail=fro)
+    if npar < 8:
+        ctx.error("C19.R2: %d parse-only parameters examined, floor 8" % npar)
     # Kaitai's strz stops at a single zero *byte*: a construct whose terminator / pad is a whole code unit of the encoding (2 or 4 zero bytes
     # for UTF-16/32) may be described as strz only when that unit is one byte -- the discipline NullTerminated follows above
     nz = 0
@@ -255,7 +287,7 @@ def run(ctx):
                 good = mask[0] == "bin" and mask[1] == "<<" and mask[2] == N.const(1) and mask[3][0] in ("idx", "elem") and e.loops
             ok = ok and good
     ctx.ob("C19.R2", fi, ok and seen >= 1, "FlagsEnum._emitseq lists one b1 per bit of the field, each named after the flag with mask 1<<i, from the most significant bit down", key="FlagsEnum bit order")
-    ctx.floor("C19.R2", 23 + 6)
+    ctx.floor("C19.R2", 23 + 6 + 55 + 8)
 
     # ---------------------------------------------------------------- R5: shared tables are keyed by fresh names
     fi, paths = own_method_paths(ctx, "KsyGen", "allocateId")
@@ -316,9 +348,41 @@ def run(ctx):
         fi, paths = one(where, meth, macro)
         ds = [d for p, d in retdict(paths)]
         ids = [d.get("id") for d in ds]
-        refs = [(i, d.get(k)) for i, d in enumerate(ds) for k in ("size", "repeat_expr") if N.is_const(d.get(k) or ()) and isinstance(d.get(k)[2], str)]
+        # identifiers mentioned by a size / repeat-expr given as text (a plain name, or an expression such as "lengthfield - 1")
+        import re as _re
+        refs = []
+        for i, d in enumerate(ds):
+            for k in ("size", "repeat_expr"):
+                v = d.get(k)
+                if v is None:
+                    continue
+                for x in N.walk(v):
+                    if N.is_const(x) and isinstance(x[2], str):
+                        refs.extend((i, N.const(w)) for w in _re.findall(r"[A-Za-z_][A-Za-z_0-9]*", x[2].replace("%s", " ").replace("%d", " ")))
         ok = bool(refs) and all(r in ids[:i] for i, r in refs)
         ctx.ob("C19.R3", fi, ok, "%s: intra-list references name an id emitted earlier in the same list (ids %s, refs %s)" % (macro or where, [N.show(i) for i in ids], [N.show(r) for _, r in refs]), key="%s refs" % (macro or where))
+    # Prefixed: the payload's size is the length field, minus the length field's own size exactly when includelength is set (what _parse does)
+    fi, paths = own_method_paths(ctx, "Prefixed", "_emitseq")
+    inc = N.selfattr("includelength")
+    ok, nsz = True, 0
+    for p, d in retdict(paths):
+        v = d.get("size")
+        if v is None:
+            continue
+        nsz += 1
+        def minus(t):
+            return t is not None and t[0] == "fmt" and N.is_const(t[1]) and _re.fullmatch(r"lengthfield\s*-\s*%[sd]", str(t[1][2])) is not None \
+                and any(x[:3] == ("subres", "sizeof", N.selfattr("lengthfield")) for x in N.walk(t))
+        plain = lambda t: t == N.const("lengthfield")
+        if v[0] == "ite":
+            ok = ok and ((v[1] == inc and minus(v[2]) and plain(v[3])) or (v[1] == N.mk_not(inc) and plain(v[2]) and minus(v[3])))
+        elif inc in p.guards():
+            ok = ok and minus(v)
+        elif N.mk_not(inc) in p.guards():
+            ok = ok and plain(v)
+        else:
+            ok = False
+    ctx.ob("C19.R3", fi, ok and nsz >= 1, "Prefixed exports size = lengthfield, minus sizeof(lengthfield) exactly when includelength is set", key="Prefixed includelength")
     # a size-delimited payload is one attribute: id / size / type only -- the payload's own repeat / if / contents live inside that type
     for where, macro in (("Prefixed", None), (None, "PascalString")):
         fi, paths = one(where, "_emitseq", macro)
@@ -326,7 +390,7 @@ def run(ctx):
         sized = [d for d in ds if "size" in d]
         ok = bool(sized) and all(set(d) <= {"id", "size", "type", "encoding"} for d in sized)
         ctx.ob("C19.R3", fi, ok, "%s: the sized payload entry carries only id/size/type (a repeat or condition spread onto it would escape the length prefix); keys %s" % (macro or where, [sorted(d) for d in sized]), key="%s sized entry" % (macro or where))
-    ctx.floor("C19.R3", 9)
+    ctx.floor("C19.R3", 10)
 
     # ---------------------------------------------------------------- R4
     ksy, bw, rec = ("param", "ksy"), ("param", "bitwise"), ("param", "recursion")
